@@ -1681,6 +1681,8 @@ class Analysis:
                 out[key] = nv
                 return out
         # `(x >> k) == 0` / `!= 0` with a constant k and a non-negative x:  x < 2^k  /  x >= 2^k
+        if a is not None and b is not None and op in ("==", "!=") and ex.const(f, a) == 0 and ex.const(f, b) is None:
+            a, b = b, a
         if a is not None and b is not None and op in ("==", "!=") and ex.const(f, b) == 0:
             ja0 = ex.skip(f, a)
             ea0 = f.exprs[ja0]
